@@ -110,9 +110,9 @@ SPEC = dict(
     ],
     assumptions=[
         'each party calls its entry points once, as the templates around them do: the spawned operation calls complete() once; a future is either dropped (drop(), never started) or started (continuation runs once after evt_ fires); abandon() runs at most once (inplace_stop_callback, C03)',
-        'all units except lemma_interleavings_callback_lifetime_as_coded: abandon() runs only while the future is started and its continuation has not yet deleted the shared state. As coded the stop callback is registered at connect (let_value_with builds its state in the operation constructor) and outlives the continuation; the as-coded lemma lifts this assumption and fails (abandon() on freed state: confirmed natively with ASan)',
-        'all units except lemma_interleavings_callback_lifetime_as_coded: drop() is not preceded by abandon() (a connected-but-never-started future that received a stop request makes drop() find abandoned/complete and reach std::terminate: confirmed natively; the as-coded lemma fails on it)',
-        'unit drop assumes the value-storing callback of set_value does not throw (no value->error store between complete()\'s CAS and evt_.set()); unit drop_value_store_throws lifts it and fails (stale state handed to deleter: confirmed natively)',
+        'all units except lemma_interleavings_callback_lifetime_as_coded: for a started future abandon() does not run after the continuation has finished. As coded the stop callback (registered at connect: let_value_with builds its state in the operation constructor) is deregistered only when the future\'s operation state is destroyed; the as-coded lemma lifts this assumption and fails on "abandon() touches the shared state only before it is deleted" (known finding C09-abandon-after-delete, ASan-confirmed)',
+        'drop() of a connected future runs after its stop callback has been deregistered (member destruction order in let_value_with / let_value_with_stop_token; inplace_stop_callback deregistration waits for a running callback, C03): abandon() is never concurrent with drop(), but may have run to its end before it',
+        'unit drop assumes the value-storing callback of set_value does not throw (weaker rely, kept for comparison); unit drop_value_store_throws verifies the same body under the honest rely (value -> error store between complete()\'s CAS and evt_.set()) and passes since fix e731689',
         'async_manual_reset_event: set() makes ready() true and wakes the waiter, does not touch the event after waking it (C16); evt_.ready()/set() are event stubs',
         'the spin in drop() is proved partially correct only (the operation eventually calls evt_.set())',
         'allocator round-trip in deleter (copy allocator, destroy, deallocate) are event stubs; allocator semantics (C12) not reached',
